@@ -13,6 +13,7 @@ import (
 
 // ModSet is the set of heap components a piece of code may write.
 type ModSet struct {
+	globals []string       // package variables (component prefixes) named in assigns clauses
 	kinds map[string]bool // allocation kinds
 	comps map[string]*Sort
 	alloc bool
@@ -216,14 +217,121 @@ func (e *Engine) callMods(c *ssa.CallCommon, depth int, stack map[*ssa.Function]
 func (e *Engine) specMods(s *FuncSpec) *ModSet {
 	m := newModSet()
 	m.setAlloc()
-	if s.modAll {
+	if !s.HasAssigns {
 		m.all = true
-		m.why = "contract without assigns"
+		m.why = "contract " + s.Name + " has no assigns clause"
+		return m
 	}
-	for k, v := range s.modComps {
-		m.comps[k] = v
+	pkg := e.typesPkgByName(s.Pkg)
+	env := &SpecEnv{f: &Frame{vc: &VC{eng: e}}, pkg: pkg}
+	ptypes := map[string]types.Type{}
+	for i, n := range s.ParamNames {
+		if i < len(s.ParamTypes) && s.ParamTypes[i] != "" {
+			if t := env.resolveType(s.ParamTypes[i]); t != nil {
+				ptypes[n] = t
+			}
+		}
+	}
+	if fn := e.funcs[s.Name]; fn != nil {
+		for _, p := range fn.Params {
+			ptypes[p.Name()] = p.Type()
+		}
+	}
+	for _, a := range s.Assigns {
+		if !e.staticAssignComps(m, a.Expr, ptypes, pkg) {
+			m.all = true
+			m.why = "assigns target " + a.Text + " of " + s.Name + " cannot be typed statically"
+		}
 	}
 	return m
+}
+
+// staticType types a contract expression built from parameters, fields,
+// dereferences (enough for assigns clauses).
+func (e *Engine) staticType(x Expr, ptypes map[string]types.Type) types.Type {
+	switch n := x.(type) {
+	case *EIdent:
+		return ptypes[n.Name]
+	case *EField:
+		t := e.staticType(n.X, ptypes)
+		if t == nil {
+			return nil
+		}
+		if p, ok := t.Underlying().(*types.Pointer); ok {
+			t = p.Elem()
+		}
+		st, ok := t.Underlying().(*types.Struct)
+		if !ok {
+			return nil
+		}
+		for i := 0; i < st.NumFields(); i++ {
+			if st.Field(i).Name() == n.Name {
+				return st.Field(i).Type()
+			}
+		}
+	case *EUn:
+		if n.Op == "*" {
+			if t := e.staticType(n.X, ptypes); t != nil {
+				if p, ok := t.Underlying().(*types.Pointer); ok {
+					return p.Elem()
+				}
+			}
+		}
+	}
+	return nil
+}
+
+func (e *Engine) staticAssignComps(m *ModSet, x Expr, ptypes map[string]types.Type, pkg *types.Package) bool {
+	if c, ok := x.(*ECall); ok {
+		if id, ok := c.Fun.(*EIdent); ok && id.Name == "global" && len(c.Args) == 1 {
+			name := exprText(c.Args[0])
+			if !strings.Contains(name, ".") && pkg != nil {
+				name = pkg.Name() + "." + name
+			}
+			// the global's components are registered when it is first used
+			m.globals = append(m.globals, "G|"+name)
+			return true
+		}
+	}
+	if s, ok := x.(*EStar); ok {
+		if ix, ok := s.X.(*EIndex); ok && ix.I == nil {
+			t := e.staticType(ix.X, ptypes)
+			if t == nil {
+				return false
+			}
+			switch u := t.Underlying().(type) {
+			case *types.Slice:
+				addElemComps(m, u.Elem())
+				return true
+			case *types.Map:
+				addMapComps(m, t)
+				return true
+			}
+			return false
+		}
+		t := e.staticType(s.X, ptypes)
+		if t == nil {
+			return false
+		}
+		if _, ok := t.Underlying().(*types.Pointer); !ok {
+			return false
+		}
+		objComps(m, t)
+		return true
+	}
+	if fe, ok := x.(*EField); ok {
+		bt := e.staticType(fe.X, ptypes)
+		ft := e.staticType(x, ptypes)
+		if bt == nil || ft == nil {
+			return false
+		}
+		if p, ok := bt.Underlying().(*types.Pointer); ok {
+			bt = p.Elem()
+		}
+		addLocComps(m, LObj, "H|"+typeKey(bt), "."+fe.Name, ft)
+		return true
+	}
+	return false
 }
 
 var fnModsCache = map[string]*ModSet{}
@@ -534,7 +642,59 @@ func (f *Frame) makeCandidates(l *Loop) {
 				sl = append(sl, p)
 			}
 		}
-		if len(sl) == 0 {
+		// arrays of slices stored in fields of objects defined outside the loop
+		// and appended to inside it: their pre-loop array may be written in place
+		var preArrs []Term
+		if l.header != nil {
+			for b := range l.blocks {
+				for _, in := range b.Instrs {
+					call, ok := in.(*ssa.Call)
+					if !ok {
+						continue
+					}
+					bi, ok := call.Call.Value.(*ssa.Builtin)
+					if !ok || bi.Name() != "append" {
+						continue
+					}
+					st0, isSl := call.Call.Args[0].Type().Underlying().(*types.Slice)
+					if !isSl || !strings.HasPrefix(k, "E|"+typeKey(st0.Elem())+"|") {
+						continue
+					}
+					ld, ok := call.Call.Args[0].(*ssa.UnOp)
+					if !ok {
+						continue
+					}
+					fa, ok := ld.X.(*ssa.FieldAddr)
+					if !ok {
+						continue
+					}
+					if def, isIn := fa.X.(ssa.Instruction); isIn && l.blocks[def.Block()] {
+						continue
+					}
+					bv, have := f.vals[fa.X]
+					if !have || len(bv.L) != 1 {
+						continue
+					}
+					_, root, path, ft := staticRoot(fa)
+					_ = ft
+					comp := root + "|" + path + "$arr"
+					if _, reg := vc.comps[comp]; reg {
+						preArr := Select(vc.get(pre, comp), bv.one())
+						preArrs = append(preArrs, preArr)
+						key := "fieldArrInitOrNew:" + comp + ":" + fa.X.Name()
+						if !vc.declared["cand:"+f.oblFn()+fmt.Sprint(l.ordinal)+key] {
+							vc.declared["cand:"+f.oblFn()+fmt.Sprint(l.ordinal)+key] = true
+							comp, base, preA := comp, bv.one(), pre.alloc
+							mk1(key, func(st *State, _ map[*ssa.Phi]Val) Term {
+								cur := Select(vc.get(st, comp), base)
+								return Or(Eq(cur, preArr), Ge(cur, preA))
+							})
+						}
+					}
+				}
+			}
+		}
+		if len(sl) == 0 && len(preArrs) == 0 {
 			continue
 		}
 		preC := vc.get(pre, k)
@@ -546,8 +706,71 @@ func (f *Frame) makeCandidates(l *Loop) {
 			for _, p := range sl {
 				ex = append(ex, Eq(r, phi[p].arr()))
 			}
+			for _, a := range preArrs {
+				ex = append(ex, Eq(r, a))
+			}
 			return Forall([]Term{r}, Imp(And(Lt(r, preA), Not(Or(ex...))), Eq(Select(cur, r), Select(preC, r))), []Term{Select(cur, r)})
 		})
+	}
+	// struct objects that existed before the loop, other than those stored to
+	// through a pointer defined outside the loop, are unchanged
+	if l.header != nil {
+		written := map[string][]ssa.Value{} // component -> base pointers stored through
+		unknown := map[string]bool{}
+		for b := range l.blocks {
+			for _, in := range b.Instrs {
+				st, ok := in.(*ssa.Store)
+				if !ok {
+					continue
+				}
+				fa, ok := st.Addr.(*ssa.FieldAddr)
+				if !ok {
+					continue
+				}
+				kind, root, path, t := staticRoot(st.Addr)
+				if kind != LObj {
+					continue
+				}
+				base := fa.X
+				for {
+					if inner, ok := base.(*ssa.FieldAddr); ok {
+						base = inner.X
+						continue
+					}
+					break
+				}
+				for _, lf := range layout(t) {
+					name := root + "|" + path + lf.Suffix
+					if def, isIn := base.(ssa.Instruction); isIn && l.blocks[def.Block()] {
+						unknown[name] = true
+					} else {
+						written[name] = append(written[name], base)
+					}
+				}
+			}
+		}
+		for _, k := range names {
+			k := k
+			ws := written[k]
+			if len(ws) == 0 || unknown[k] || !strings.HasPrefix(k, "H|") {
+				continue
+			}
+			preC := vc.get(pre, k)
+			preA := pre.alloc
+			mk1("frameLo:"+k, func(st *State, phi map[*ssa.Phi]Val) Term {
+				r := Term{"r!q", SInt}
+				cur := vc.get(st, k)
+				var ex []Term
+				for _, w := range ws {
+					if v, ok := f.vals[w]; ok && len(v.L) == 1 {
+						ex = append(ex, Eq(r, v.one()))
+					} else if p, ok := w.(*ssa.Parameter); ok {
+						ex = append(ex, Eq(r, f.val(p).one()))
+					}
+				}
+				return Forall([]Term{r}, Imp(And(Lt(r, preA), Not(Or(ex...))), Eq(Select(cur, r), Select(preC, r))), []Term{Select(cur, r)})
+			})
+		}
 	}
 	// maps that existed before the loop, other than those updated inside it, are unchanged
 	if l.header != nil {
@@ -647,6 +870,15 @@ func (f *Frame) makeCandidates(l *Loop) {
 				_ = i
 				name := compElem(el, lf.Suffix)
 				vc.elemComps(el)
+				if len(lay) == 1 {
+					mk1("nilNotInElems:"+p.Name(), func(st *State, phi map[*ssa.Phi]Val) Term {
+						t, _, ok := f.elemSet(st, phi[p], phi[p].len())
+						if !ok {
+							return True
+						}
+						return Not(Select(t, Zero))
+					})
+				}
 				mk1("elemsNonNil:"+p.Name()+lf.Suffix, func(st *State, phi map[*ssa.Phi]Val) Term {
 					j := Term{"j!q", SInt}
 					e := Select(Select(vc.get(st, name), phi[p].arr()), j)
